@@ -95,7 +95,11 @@ lib = library('l', 'f.c', dependencies: foo)
 executable('e', 'm.c', link_with: lib)
 message(get_option('o_a'))
 configure_file(output: 'conf.h', configuration: {'A': get_option('o_a'), 'V': foo.version()})
+configure_file(input: 'ver.txt', output: 'ver-copy.txt', copy: true)
+configure_file(input: 'tmpl.in', output: 'tmpl.out', configuration: {'A': get_option('o_a')})
 """,
+    'ver.txt': '1.2.3\n',
+    'tmpl.in': 'a=@A@ rev 3\n',
     'meson.options': "option('o_a', type: 'string', value: 'a')\noption('o_b', type: 'boolean', value: false)\n",
     'f.c': 'int f(void) { return 1; }\n',
     'm.c': 'int f(void); int main(void) { return f() - 1; }\n',
@@ -108,6 +112,9 @@ HISTORIES = {
     'default_library-changed': (['-Dpkg_config_path=@SRC@/pcA', '-Ddefault_library=static'], ['-Dpkg_config_path=@SRC@/pcA', '-Ddefault_library=shared']),
     'buildtype-changed': (['-Dpkg_config_path=@SRC@/pcA', '-Dbuildtype=release'], ['-Dpkg_config_path=@SRC@/pcA', '-Dbuildtype=debug']),
     'base-option-changed': (['-Dpkg_config_path=@SRC@/pcA', '-Db_ndebug=true', '-Db_lto=true'], ['-Dpkg_config_path=@SRC@/pcA', '-Db_ndebug=false', '-Db_lto=false']),
+    # the inputs of configure_file() are replaced between the two runs by files of the SAME size, modification time and mode with other
+    # content (an unpacked release archive with fixed timestamps, cp -p, rsync -t): the outputs follow the content
+    'inputs-replaced-keeping-size-mtime-mode': (['-Dpkg_config_path=@SRC@/pcA'], ['-Dpkg_config_path=@SRC@/pcA']),
 }
 
 
@@ -130,6 +137,12 @@ def _hist_chunk(chunk):
                 r = subprocess.run([sys.executable, os.path.join(repo, 'meson.py'), 'setup', *extra, build, src], capture_output=True, text=True, env=env)
                 return r.returncode, r.stdout[-300:] + r.stderr[-300:]
             rc, out = st(sub(first))
+            if rc == 0 and name == 'inputs-replaced-keeping-size-mtime-mode':
+                for rel, text in (('ver.txt', '1.2.4\n'), ('tmpl.in', 'a=@A@ rev 4\n')):
+                    p_ = os.path.join(src, rel)
+                    st_ = os.stat(p_)
+                    open(p_, 'w').write(text)
+                    os.utime(p_, ns=(st_.st_atime_ns, st_.st_mtime_ns))
             if rc == 0:
                 rc, out = st(['--reconfigure'] + sub(then))
             nt += 1
